@@ -799,3 +799,448 @@ Theorem C04_no_mutable_package_state :
   StateInventory.rg_mutated g = false /\ StateInventory.rg_escapes g = false.
 Proof. apply StateInventory.pkg_state_ok_spec. vm_compute. reflexivity. Qed.
 Print Assumptions C04_no_mutable_package_state.
+
+(** * (c) WITHOUT the [NoDup] hypothesis: transactions with identical outputs (proofs/CommitNoDup.v)
+
+    The mutations are positional and the serialisations length-prefixed, so for every type that is not SINGLE, and
+    for every mutation that edits a field in place, identical outputs change nothing: [NoDup] is simply dropped.
+    It was used only where the SOLE committed effect of a mutation, under SIGHASH_SINGLE, is to put another output
+    at the signed input's position: output insertion / removal at or before that position (both algorithms), input
+    insertion / removal in front of the signed input under SINGLE|ANYONECANPAY (FORKID only: the legacy copy carries
+    [idx] blank outputs, so the shift itself shows).  There it is replaced by the weakest hypothesis that works,
+    [matching_output_moves]: the output NOW at the signed position differs from the one that WAS there.  That
+    hypothesis follows from the two [NoDup]s ([C04_NoDup_implies_matching_output_moves]: the theorems below subsume
+    the [NoDup] ones above) and it is necessary: with the same output at the signed position the committed view,
+    the preimage and the digest are identical ([C04_single_same_matching_output_*]) - so the statements with no
+    hypothesis at all are FALSE ([*_without_NoDup_refuted]).  Not a defect of the code: SINGLE commits to the content
+    of the output at the signed position, which is unchanged; the table [committed] is too coarse there. *)
+From GoBT Require proofs.CommitNoDup proofs.InscribeAccept.
+
+Theorem C04_commit_sensitive_forkid_spec_positional_partial : forall c ht m inp,
+  committed_in AlgForkid ht c m = true -> effective m c ->
+  nth_error (t_vin (sc_tx c)) (sc_idx c) = Some inp ->
+  wf_ctx c -> wf_ctx (apply_mutation m c) -> ht < two32 ->
+  CommitNoDup.matching_output_moves AlgForkid ht m c ->
+  exists v v', forkid_view_of c ht = Some v /\ forkid_view_of (apply_mutation m c) ht = Some v' /\
+               components_of v' <> components_of v.
+Proof. exact CommitNoDup.commit_sensitive_forkid_pos. Qed.
+Print Assumptions C04_commit_sensitive_forkid_spec_positional_partial.
+Theorem C04_commit_sensitive_legacy_spec_positional_partial : forall c ht m inp,
+  committed_in AlgLegacy ht c m = true -> effective m c ->
+  nth_error (t_vin (sc_tx c)) (sc_idx c) = Some inp ->
+  wf_ctx c -> wf_ctx (apply_mutation m c) -> ht < two32 ->
+  CommitNoDup.matching_output_moves AlgLegacy ht m c ->
+  let c' := apply_mutation m c in
+  legacy_signature_hash (sc_code c') (sc_tx c') (sc_idx c') ht <>
+  legacy_signature_hash (sc_code c) (sc_tx c) (sc_idx c) ht.
+Proof. exact CommitNoDup.commit_sensitive_legacy_pos. Qed.
+Print Assumptions C04_commit_sensitive_legacy_spec_positional_partial.
+
+(** what the hypothesis says, spelled out: nothing unless the base type is SINGLE and the mutation inserts / removes
+    an output or (FORKID, ANYONECANPAY) an input; then "the output at the signed position is another one" *)
+Theorem C04_matching_output_moves_unfold : forall alg ht m c,
+  CommitNoDup.matching_output_moves alg ht m c <->
+  match m with
+  | MOutInsert _ _ | MOutRemove _ =>
+      is_single ht = true ->
+      nth_error (t_vout (sc_tx (apply_mutation m c))) (sc_idx (apply_mutation m c)) <> nth_error (t_vout (sc_tx c)) (sc_idx c)
+  | MInInsert _ _ | MInRemove _ =>
+      alg = AlgForkid -> is_single ht = true -> anyone_can_pay ht = true ->
+      nth_error (t_vout (sc_tx (apply_mutation m c))) (sc_idx (apply_mutation m c)) <> nth_error (t_vout (sc_tx c)) (sc_idx c)
+  | _ => True
+  end.
+Proof. intros alg ht m c. destruct m; reflexivity. Qed.
+Theorem C04_matching_output_moves_not_single : forall alg ht m c, is_single ht = false ->
+  CommitNoDup.matching_output_moves alg ht m c.
+Proof. exact CommitNoDup.matching_output_moves_not_single. Qed.
+(** the new hypothesis is weaker than the old ones *)
+Theorem C04_NoDup_implies_matching_output_moves : forall alg c ht m,
+  committed_in alg ht c m = true -> effective m c ->
+  NoDup (t_vout (sc_tx c)) -> NoDup (t_vout (sc_tx (apply_mutation m c))) ->
+  CommitNoDup.matching_output_moves alg ht m c.
+Proof. exact CommitNoDup.NoDup_matching_output_moves. Qed.
+Print Assumptions C04_NoDup_implies_matching_output_moves.
+
+(** ... and necessary: under SINGLE, a mutation of these classes that leaves the same output at the signed position
+    leaves the preimage (FORKID) / the digest preimage (legacy; output insertion and removal) IDENTICAL *)
+Theorem C04_single_same_matching_output_same_forkid_preimage : forall c ht m,
+  is_single ht = true -> applicable m c -> CommitNoDup.shifts_matching_output ht m ->
+  CommitNoDup.matching_output (apply_mutation m c) = CommitNoDup.matching_output c ->
+  let c' := apply_mutation m c in
+  forkid_preimage (sc_tx c') (sc_idx c') (sc_code c') (sc_amount c') ht =
+  forkid_preimage (sc_tx c) (sc_idx c) (sc_code c) (sc_amount c) ht.
+Proof. exact CommitNoDup.single_same_matching_output_same_forkid_preimage. Qed.
+Print Assumptions C04_single_same_matching_output_same_forkid_preimage.
+Theorem C04_single_same_matching_output_same_legacy_digest : forall c ht m,
+  is_single ht = true -> applicable m c ->
+  match m with MOutInsert _ _ | MOutRemove _ => True | _ => False end ->
+  CommitNoDup.matching_output (apply_mutation m c) = CommitNoDup.matching_output c ->
+  let c' := apply_mutation m c in
+  legacy_signature_hash (sc_code c') (sc_tx c') (sc_idx c') ht = legacy_signature_hash (sc_code c) (sc_tx c) (sc_idx c) ht.
+Proof. exact CommitNoDup.single_same_matching_output_same_legacy_digest. Qed.
+Print Assumptions C04_single_same_matching_output_same_legacy_digest.
+
+(** REFUTED: [C04_commit_sensitive_*_spec_partial] without [NoDup].  Input 0 of a transaction with two identical
+    outputs, SINGLE|FORKID / SINGLE|ANYONECANPAY|FORKID / legacy SINGLE: a copy inserted at the signed position, the
+    first of the two removed, an input inserted in front (ANYONECANPAY): all hypotheses but [NoDup] hold and the
+    preimage is the same *)
+Theorem C04_commit_sensitive_forkid_without_NoDup_refuted :
+  forall ht m, In (ht, m) [(0x43, MOutInsert 0 CommitNoDup.dup_out); (0x43, MOutRemove 0);
+                           (0xc3, MOutInsert 0 CommitNoDup.dup_out); (0xc3, MInInsert 0 (CommitNoDup.dup_in x11))] ->
+  let c := CommitNoDup.dup_ctx in let c' := apply_mutation m c in
+  committed_in AlgForkid ht c m = true /\ effective m c /\
+  nth_error (t_vin (sc_tx c)) (sc_idx c) = Some (CommitNoDup.dup_in xab) /\ wf_ctx c /\ wf_ctx c' /\ ht < two32 /\
+  forkid_view_of c' ht = forkid_view_of c ht /\
+  forkid_preimage (sc_tx c') (sc_idx c') (sc_code c') (sc_amount c') ht =
+  forkid_preimage (sc_tx c) (sc_idx c) (sc_code c) (sc_amount c) ht.
+Proof. exact CommitNoDup.commit_sensitive_forkid_without_NoDup_refuted. Qed.
+Print Assumptions C04_commit_sensitive_forkid_without_NoDup_refuted.
+Theorem C04_commit_sensitive_legacy_without_NoDup_refuted :
+  forall ht m, In (ht, m) [(0x03, MOutInsert 0 CommitNoDup.dup_out); (0x03, MOutRemove 0);
+                           (0x83, MOutInsert 0 CommitNoDup.dup_out)] ->
+  let c := CommitNoDup.dup_ctx in let c' := apply_mutation m c in
+  committed_in AlgLegacy ht c m = true /\ effective m c /\
+  nth_error (t_vin (sc_tx c)) (sc_idx c) = Some (CommitNoDup.dup_in xab) /\ wf_ctx c /\ wf_ctx c' /\ ht < two32 /\
+  legacy_signature_hash (sc_code c') (sc_tx c') (sc_idx c') ht = legacy_signature_hash (sc_code c) (sc_tx c) (sc_idx c) ht.
+Proof. exact CommitNoDup.commit_sensitive_legacy_without_NoDup_refuted. Qed.
+Print Assumptions C04_commit_sensitive_legacy_without_NoDup_refuted.
+
+(** on the library model.  [matching_output_moves_tx]: the same hypothesis read on the go-bt object:
+    [nth_error (tx_outs t') i' <> nth_error (tx_outs t) i] in the four cases *)
+Theorem C04_commit_sensitive_forkid_positional_partial : forall t i ht m, ht < 256 ->
+  let t' := fst (apply_tx m t i) in let i' := snd (apply_tx m t i) in
+  signable t i -> signable t' i' ->
+  committed_in AlgForkid ht (sign_ctx_of t i) m = true -> effective m (sign_ctx_of t i) ->
+  CommitNoDup.matching_output_moves_tx AlgForkid ht m t i ->
+  exists v v',
+    fst (calc_input_preimage t (N.of_nat i) ht) = SOk (assemble (components_of v)) /\
+    fst (calc_input_preimage t' (N.of_nat i') ht) = SOk (assemble (components_of v')) /\
+    components_of v' <> components_of v /\
+    (no_collision (fc_prevouts (components_of v')) (fc_prevouts (components_of v)) ->
+     no_collision (fc_sequences (components_of v')) (fc_sequences (components_of v)) ->
+     no_collision (fc_outputs (components_of v')) (fc_outputs (components_of v)) ->
+     fst (calc_input_preimage t' (N.of_nat i') ht) <> fst (calc_input_preimage t (N.of_nat i) ht)).
+Proof. exact CommitNoDup.model_commit_sensitive_forkid_mod_collisions_pos. Qed.
+Print Assumptions C04_commit_sensitive_forkid_positional_partial.
+Theorem C04_commit_sensitive_legacy_positional_partial : forall t i ht m, ht < 256 ->
+  let t' := fst (apply_tx m t i) in let i' := snd (apply_tx m t i) in
+  signable t i -> signable t' i' ->
+  committed_in AlgLegacy ht (sign_ctx_of t i) m = true -> effective m (sign_ctx_of t i) ->
+  CommitNoDup.matching_output_moves_tx AlgLegacy ht m t i ->
+  fst (calc_input_preimage_legacy t' (N.of_nat i') ht) <> fst (calc_input_preimage_legacy t (N.of_nat i) ht).
+Proof. exact CommitNoDup.model_commit_sensitive_legacy_pos. Qed.
+Print Assumptions C04_commit_sensitive_legacy_positional_partial.
+Theorem C04_matching_output_moves_tx_unfold : forall alg ht m t i,
+  CommitNoDup.matching_output_moves_tx alg ht m t i <->
+  match m with
+  | MOutInsert _ _ | MOutRemove _ =>
+      is_single ht = true -> nth_error (tx_outs (fst (apply_tx m t i))) (snd (apply_tx m t i)) <> nth_error (tx_outs t) i
+  | MInInsert _ _ | MInRemove _ =>
+      alg = AlgForkid -> is_single ht = true -> anyone_can_pay ht = true ->
+      nth_error (tx_outs (fst (apply_tx m t i))) (snd (apply_tx m t i)) <> nth_error (tx_outs t) i
+  | _ => True
+  end.
+Proof. intros alg ht m t i. destruct m; reflexivity. Qed.
+
+(** every type that is not SINGLE (ALL, NONE, with or without ANYONECANPAY and FORKID): NO hypothesis on the
+    outputs.  In particular inserting a copy of an output next to the original, or removing one of two identical
+    outputs, under ALL, changes the committed bytes (the count and the total length change) *)
+Theorem C04_commit_sensitive_forkid_not_single_partial : forall t i ht m, ht < 256 -> is_single ht = false ->
+  let t' := fst (apply_tx m t i) in let i' := snd (apply_tx m t i) in
+  signable t i -> signable t' i' ->
+  committed_in AlgForkid ht (sign_ctx_of t i) m = true -> effective m (sign_ctx_of t i) ->
+  exists v v',
+    fst (calc_input_preimage t (N.of_nat i) ht) = SOk (assemble (components_of v)) /\
+    fst (calc_input_preimage t' (N.of_nat i') ht) = SOk (assemble (components_of v')) /\
+    components_of v' <> components_of v.
+Proof. exact CommitNoDup.model_commit_sensitive_forkid_not_single. Qed.
+Print Assumptions C04_commit_sensitive_forkid_not_single_partial.
+Theorem C04_commit_sensitive_legacy_not_single_partial : forall t i ht m, ht < 256 -> is_single ht = false ->
+  let t' := fst (apply_tx m t i) in let i' := snd (apply_tx m t i) in
+  signable t i -> signable t' i' ->
+  committed_in AlgLegacy ht (sign_ctx_of t i) m = true -> effective m (sign_ctx_of t i) ->
+  fst (calc_input_preimage_legacy t' (N.of_nat i') ht) <> fst (calc_input_preimage_legacy t (N.of_nat i) ht).
+Proof. exact CommitNoDup.model_commit_sensitive_legacy_not_single. Qed.
+Print Assumptions C04_commit_sensitive_legacy_not_single_partial.
+
+(** the same output at the signed position: CalcInputPreimage of the mutated object returns the same bytes *)
+Theorem C04_single_same_matching_output_same_preimage : forall t i ht m, ht < 256 -> is_single ht = true ->
+  let t' := fst (apply_tx m t i) in let i' := snd (apply_tx m t i) in
+  signable t i -> signable t' i' -> applicable m (sign_ctx_of t i) -> CommitNoDup.shifts_matching_output ht m ->
+  nth_error (tx_outs t') i' = nth_error (tx_outs t) i ->
+  fst (calc_input_preimage t' (N.of_nat i') ht) = fst (calc_input_preimage t (N.of_nat i) ht).
+Proof. exact CommitNoDup.model_single_same_matching_output_same_preimage. Qed.
+Print Assumptions C04_single_same_matching_output_same_preimage.
+
+(** REFUTED on the library model: [C04_commit_sensitive_forkid_partial] / [_legacy_partial] without [NoDup] *)
+Theorem C04_commit_sensitive_without_NoDup_refuted :
+  forall ht m, In (ht, m) [(0x43, MOutInsert 0 CommitNoDup.dup_out); (0x43, MOutRemove 0);
+                           (0xc3, MInInsert 0 (CommitNoDup.dup_in x11));
+                           (0x03, MOutInsert 0 CommitNoDup.dup_out); (0x03, MOutRemove 0)] ->
+  let alg := if has_forkid ht then AlgForkid else AlgLegacy in
+  let t' := fst (apply_tx m CommitNoDup.dup_tx 0) in let i' := snd (apply_tx m CommitNoDup.dup_tx 0) in
+  ht < 256 /\ signable CommitNoDup.dup_tx 0 /\ signable t' i' /\
+  committed_in alg ht (sign_ctx_of CommitNoDup.dup_tx 0) m = true /\ effective m (sign_ctx_of CommitNoDup.dup_tx 0) /\
+  (if has_forkid ht then fst (calc_input_preimage t' (N.of_nat i') ht) = fst (calc_input_preimage CommitNoDup.dup_tx 0 ht)
+   else fst (calc_input_preimage_legacy t' (N.of_nat i') ht) = fst (calc_input_preimage_legacy CommitNoDup.dup_tx 0 ht)) /\
+  fst (calc_input_signature_hash t' (N.of_nat i') ht) = fst (calc_input_signature_hash CommitNoDup.dup_tx 0 ht).
+Proof. exact CommitNoDup.model_commit_sensitive_without_NoDup_refuted. Qed.
+Print Assumptions C04_commit_sensitive_without_NoDup_refuted.
+
+(** non-vacuity on a transaction WITH duplicate outputs: under ALL|FORKID the hypothesis holds for every mutation,
+    the copy-insertion and the removal are committed and effective; under SINGLE it holds for a different output *)
+Example C04_matching_output_moves_satisfiable_with_duplicates :
+  ~ NoDup (t_vout (sc_tx CommitNoDup.dup_ctx)) /\
+  (forall m, CommitNoDup.matching_output_moves AlgForkid 0x41 m CommitNoDup.dup_ctx) /\
+  committed_in AlgForkid 0x41 CommitNoDup.dup_ctx (MOutInsert 0 CommitNoDup.dup_out) = true /\
+  effective (MOutInsert 0 CommitNoDup.dup_out) CommitNoDup.dup_ctx /\
+  committed_in AlgForkid 0x41 CommitNoDup.dup_ctx (MOutRemove 0) = true /\ effective (MOutRemove 0) CommitNoDup.dup_ctx /\
+  CommitNoDup.matching_output_moves AlgForkid 0x43 (MOutInsert 0 (mkTxOut 7 [x51])) CommitNoDup.dup_ctx /\
+  committed_in AlgForkid 0x43 CommitNoDup.dup_ctx (MOutInsert 0 (mkTxOut 7 [x51])) = true.
+Proof. exact CommitNoDup.matching_output_moves_satisfiable_with_duplicates. Qed.
+
+(** end to end on the interpreter model, two identical outputs, a signature the oracle accepts ONLY over the digest of
+    the original transaction.  SINGLE|FORKID: a copy inserted at the signed position and the removal of the first
+    copy leave the input ACCEPTED (the committed output has the same content), a different output there is rejected.
+    ALL|FORKID: the copy-insertion and the removal are both REJECTED *)
+Example C04_duplicate_outputs_on_instance :
+  let t0 := tx_with_outs (P2PKHProofs.ex_tx true) [mkOutput 900 [x6a]; mkOutput 900 [x6a]] in
+  let run (ht : N) (m : mutation) :=
+    let h0 := match fst (calc_input_signature_hash t0 0 ht) with SOk h => h | _ => [] end in
+    let u := p2pkh_unlock ex_sig ht ex_pk in
+    let t' := fst (apply_tx m t0 0) in
+    fst (engine_execute (mk_sigops (only_orc h0)
+                           (engine_tx t' 0 u (ex_lock true) (match tx_ins t' with x :: _ => in_sats x | [] => 0 end)) 0)
+           (mkExecInput u (ex_lock true) FLAGS_FORKID_GENESIS true true (Z.of_N (tx_lock t')) (Z.of_N (tx_version t')) 4294967295)) in
+  run 0x43 (MOutInsert 0 (mkTxOut 900 [x6a])) = VOk /\ run 0x43 (MOutRemove 0) = VOk /\
+  run 0x43 (MOutInsert 0 (mkTxOut 901 [x6a])) = VErr /\
+  run 0x41 (MOutInsert 0 (mkTxOut 900 [x6a])) = VErr /\ run 0x41 (MOutRemove 0) = VErr /\
+  run 0x41 (MVersion 1) = VOk.
+Proof. vm_compute. repeat split. Qed.
+
+(** * the inscription case CLOSED (proofs/InscribeAccept.v)
+
+    (A) the envelope body Tx.Inscribe writes, push "ord" OP_1 push(content type) OP_0 push(data), parses as the five
+    push operations [ord_bops ct data] - for EVERY content type and payload Inscribe accepts (shorter than 2^32
+    bytes), whichever of the five forms EncodeParts picks for the two items: OP_0 (empty), direct push (1..75),
+    OP_PUSHDATA1 / 2 / 4 *)
+Theorem C04_inscribe_body_is_push_only : forall ct data, lenN ct < 4294967296 -> lenN data < 4294967296 ->
+  parse_ops (length (SignAcceptAll.ord_body ct data)) false (SignAcceptAll.ord_body ct data) 1 =
+    Some (InscribeAccept.ord_bops ct data) /\
+  is_push_only (InscribeAccept.ord_bops ct data) = true /\
+  map p_data (InscribeAccept.ord_bops ct data) = [Inscription.ordinals_prefix; []; ct; []; data].
+Proof.
+  intros ct data Hct Hd. split; [apply InscribeAccept.parse_ord_body; assumption|].
+  split; [apply InscribeAccept.ord_bops_push_only|].
+  unfold InscribeAccept.ord_bops. cbn [map]. rewrite !InscribeAccept.push_pop_data. reflexivity.
+Qed.
+Print Assumptions C04_inscribe_body_is_push_only.
+
+(** [C04_inscription_input_signed_and_accepted] without the hypotheses on parsed operations.  What remains about
+    the envelope is the interpreter's element-size limit on content type and payload: a genuine requirement before
+    Genesis (520 bytes: executeOpcode checks the size of a push before it looks at the branch) ... *)
+Theorem C04_inscription_input_signed_and_accepted_closed : forall (orc : sig_oracle) (s : signer) (t : tx) (idx : N) (inp : input)
+    (flags ht : N) (ct data lock : bytes) (h sig : bytes),
+  let ht' := default_type ht in
+  let pk := sg_pub s in
+  let c := mkCtx (normalise_flags flags) true (Z.of_N (tx_lock t)) (Z.of_N (tx_version t)) (Z.of_N (in_seq inp)) false in
+  wf_tx t -> idx + 1 < two32 -> In ht' [0x41; 0x42; 0x43; 0xc1; 0xc2; 0xc3] ->
+  nthN (tx_ins t) idx = Some inp ->
+  Inscription.inscribe_script (p2pkh_lock (hash160 pk)) ct data None = Some lock -> in_script inp = Some lock ->
+  signer_ok s ->
+  fst (calc_input_signature_hash t idx ht') = SOk h -> sg_sign s h = Some sig ->
+  has_flag c F_FORKID = true ->
+  (has_flag c F_CLEANSTACK = true -> has_flag c F_BIP16 = true) ->
+  (lenZ lock <= max_script_size c)%Z ->
+  (lenZ ct <= max_elem c)%Z -> (lenZ data <= max_elem c)%Z ->
+  oracle_accepts_signer orc c s h ->
+  exists t' inp', fill_input (Some s) t idx ht = SgOk t' /\ nthN (tx_ins t') idx = Some inp' /\
+    in_script inp' = Some lock /\ in_sats inp' = in_sats inp /\ in_seq inp' = in_seq inp /\
+    fst (engine_execute (mk_sigops orc (engine_tx t' idx (in_unlock inp') lock (in_sats inp')) idx)
+           (mkExecInput (in_unlock inp') lock flags true true (Z.of_N (tx_lock t')) (Z.of_N (tx_version t'))
+                        (Z.of_N (in_seq inp')))) = VOk.
+Proof. exact InscribeAccept.inscription_input_signed_and_accepted_closed. Qed.
+Print Assumptions C04_inscription_input_signed_and_accepted_closed.
+
+(** ... and implied by the script-size limit after Genesis (the configuration the property observes): NOTHING is
+    assumed about the envelope *)
+Theorem C04_inscription_input_signed_and_accepted_genesis : forall (orc : sig_oracle) (s : signer) (t : tx) (idx : N) (inp : input)
+    (flags ht : N) (ct data lock : bytes) (h sig : bytes),
+  let ht' := default_type ht in
+  let pk := sg_pub s in
+  let c := mkCtx (normalise_flags flags) true (Z.of_N (tx_lock t)) (Z.of_N (tx_version t)) (Z.of_N (in_seq inp)) false in
+  wf_tx t -> idx + 1 < two32 -> In ht' [0x41; 0x42; 0x43; 0xc1; 0xc2; 0xc3] ->
+  nthN (tx_ins t) idx = Some inp ->
+  Inscription.inscribe_script (p2pkh_lock (hash160 pk)) ct data None = Some lock -> in_script inp = Some lock ->
+  signer_ok s ->
+  fst (calc_input_signature_hash t idx ht') = SOk h -> sg_sign s h = Some sig ->
+  has_flag c F_FORKID = true -> after_genesis c = true ->
+  (has_flag c F_CLEANSTACK = true -> has_flag c F_BIP16 = true) ->
+  (lenZ lock <= max_script_size c)%Z ->
+  oracle_accepts_signer orc c s h ->
+  exists t' inp', fill_input (Some s) t idx ht = SgOk t' /\ nthN (tx_ins t') idx = Some inp' /\
+    in_script inp' = Some lock /\ in_sats inp' = in_sats inp /\ in_seq inp' = in_seq inp /\
+    fst (engine_execute (mk_sigops orc (engine_tx t' idx (in_unlock inp') lock (in_sats inp')) idx)
+           (mkExecInput (in_unlock inp') lock flags true true (Z.of_N (tx_lock t')) (Z.of_N (tx_version t'))
+                        (Z.of_N (in_seq inp')))) = VOk.
+Proof. exact InscribeAccept.inscription_input_signed_and_accepted_genesis. Qed.
+Print Assumptions C04_inscription_input_signed_and_accepted_genesis.
+
+(** (B) the OP_RETURN-tailed template.  With a non-empty EnrichedArgs.OpReturnData, Inscribe builds
+    p2pkh, envelope, OP_RETURN, push(item)... = [lock_e pkh (ord_body ct data) tail] *)
+Theorem C04_inscribe_script_is_enriched_lock : forall pkh ct data d dd s,
+  Inscription.inscribe_script (p2pkh_lock pkh) ct data (Some (d :: dd)) = Some s ->
+  s = p2pkh_lock pkh ++ inscription_suffix (SignAcceptAll.ord_body ct data) ++
+      x6a :: InscriptionProofs.toks_bytes (map InscriptionProofs.push_tok (d :: dd)).
+Proof. exact InscribeAccept.inscribe_script_is_lock_e. Qed.
+Print Assumptions C04_inscribe_script_is_enriched_lock.
+
+(** the acceptance theorem for that template, for EVERY byte string behind the OP_RETURN: after Genesis the
+    top-level OP_RETURN ends the script successfully with OP_CHECKSIG's [true] on the stack; what follows is one
+    "Unformatted Data" operation that is never executed; the script code hashed is the whole locking script *)
+Theorem C04_signed_inscription_enriched_accepts : forall (orc : sig_oracle) (t : tx) (idx : N) (inp : input) (flags sats ht : N)
+    (sig pk body tail : bytes) (bops : list pop) (h : bytes),
+  let full := sig ++ [n2b ht] in
+  let unlock := p2pkh_unlock sig ht pk in
+  let lock := p2pkh_lock (hash160 pk) ++ inscription_suffix body ++ x6a :: tail in
+  let tE := engine_tx t idx unlock lock sats in
+  let c := mkCtx (normalise_flags flags) true (Z.of_N (tx_lock t)) (Z.of_N (tx_version t)) (Z.of_N (in_seq inp)) false in
+  ht < 256 -> length pk = 33%nat -> (length full <= 75)%nat ->
+  (has_flag c F_MINIMALDATA = true -> sig <> []) ->
+  (has_flag c F_CLEANSTACK = true -> has_flag c F_BIP16 = true) ->
+  (lenZ lock <= max_script_size c)%Z ->
+  after_genesis c = true ->
+  parse_ops (length body) false body 1 = Some bops -> is_push_only bops = true ->
+  Forall (fun p => (lenZ (p_data p) <= max_elem c)%Z) bops ->
+  check_hash_type c ht = true -> check_sig_enc c sig = EncOk -> check_pubkey_enc c pk = true ->
+  (has_flag c F_FORKID && flag_has ht sh_forkid = true \/
+   forall l, parse_script false lock = Some l -> strip_sig l full = l) ->
+  sighash_for tE idx lock ht = SOk h ->
+  orc_parse_pub orc pk = true -> orc_parse_sig orc (uses_der_parser c) sig = true ->
+  orc_verify orc pk h sig (uses_der_parser c) = Some true ->
+  fst (engine_execute (mk_sigops orc tE idx)
+         (mkExecInput unlock lock flags true true (Z.of_N (tx_lock t)) (Z.of_N (tx_version t)) (Z.of_N (in_seq inp)))) = VOk.
+Proof. exact InscribeAccept.signed_inscription_enriched_accepts. Qed.
+Print Assumptions C04_signed_inscription_enriched_accepts.
+
+(** end to end: an input spending what Inscribe built WITH OP_RETURN data for the signing key's hash, signed by
+    FillInput with a standard FORKID type, IS filled and, after Genesis, accepted - nothing assumed about content
+    type, payload or OP_RETURN items beyond Inscribe having accepted them *)
+Theorem C04_inscription_enriched_input_signed_and_accepted : forall (orc : sig_oracle) (s : signer) (t : tx) (idx : N)
+    (inp : input) (flags ht : N) (ct data d : bytes) (dd : list bytes) (lock h sig : bytes),
+  let ht' := default_type ht in
+  let pk := sg_pub s in
+  let c := mkCtx (normalise_flags flags) true (Z.of_N (tx_lock t)) (Z.of_N (tx_version t)) (Z.of_N (in_seq inp)) false in
+  wf_tx t -> idx + 1 < two32 -> In ht' [0x41; 0x42; 0x43; 0xc1; 0xc2; 0xc3] ->
+  nthN (tx_ins t) idx = Some inp ->
+  Inscription.inscribe_script (p2pkh_lock (hash160 pk)) ct data (Some (d :: dd)) = Some lock -> in_script inp = Some lock ->
+  signer_ok s ->
+  fst (calc_input_signature_hash t idx ht') = SOk h -> sg_sign s h = Some sig ->
+  has_flag c F_FORKID = true -> after_genesis c = true ->
+  (has_flag c F_CLEANSTACK = true -> has_flag c F_BIP16 = true) ->
+  (lenZ lock <= max_script_size c)%Z ->
+  oracle_accepts_signer orc c s h ->
+  exists t' inp', fill_input (Some s) t idx ht = SgOk t' /\ nthN (tx_ins t') idx = Some inp' /\
+    in_script inp' = Some lock /\ in_sats inp' = in_sats inp /\ in_seq inp' = in_seq inp /\
+    fst (engine_execute (mk_sigops orc (engine_tx t' idx (in_unlock inp') lock (in_sats inp')) idx)
+           (mkExecInput (in_unlock inp') lock flags true true (Z.of_N (tx_lock t')) (Z.of_N (tx_version t'))
+                        (Z.of_N (in_seq inp')))) = VOk.
+Proof. exact InscribeAccept.inscription_enriched_input_signed_and_accepted. Qed.
+Print Assumptions C04_inscription_enriched_input_signed_and_accepted.
+
+(** the self-signed form (as [C04_self_signed_input_accepted_forkid]) for every Inscribe output: no tail, empty
+    OpReturnData, or OP_RETURN data *)
+Theorem C04_self_signed_inscribed_input_accepted : forall (orc : sig_oracle) (s : signer) (A : tx) (idx : N) (inp : input)
+    (flags ht : N) (ct data : bytes) (enriched : option (list bytes)) (lock : bytes),
+  let ht' := default_type ht in
+  let pk := sg_pub s in
+  let c := mkCtx (normalise_flags flags) true (Z.of_N (tx_lock A)) (Z.of_N (tx_version A)) (Z.of_N (in_seq inp)) false in
+  wf_tx A -> idx + 1 < two32 -> In ht' [0x41; 0x42; 0x43; 0xc1; 0xc2; 0xc3] ->
+  nthN (tx_ins A) idx = Some inp ->
+  Inscription.inscribe_script (p2pkh_lock (hash160 pk)) ct data enriched = Some lock -> in_script inp = Some lock ->
+  signer_ok s ->
+  unlocking_script s A idx ht = SgOk (in_unlock inp) ->
+  has_flag c F_FORKID = true -> after_genesis c = true ->
+  (has_flag c F_CLEANSTACK = true -> has_flag c F_BIP16 = true) ->
+  (lenZ lock <= max_script_size c)%Z ->
+  (forall h, fst (calc_input_signature_hash A idx ht') = SOk h -> oracle_accepts_signer orc c s h) ->
+  fst (engine_execute (mk_sigops orc (engine_tx A idx (in_unlock inp) lock (in_sats inp)) idx)
+         (mkExecInput (in_unlock inp) lock flags true true (Z.of_N (tx_lock A)) (Z.of_N (tx_version A))
+                      (Z.of_N (in_seq inp)))) = VOk.
+Proof. exact InscribeAccept.self_signed_inscribed_input_accepted. Qed.
+Print Assumptions C04_self_signed_inscribed_input_accepted.
+
+(** non-vacuity: the parser on the envelope body at every boundary payload length (0, 1, 75, 76, 255, 256, 65535,
+    65536); an enriched inscription output signed through FillInput and run through the interpreter model: accepted
+    after Genesis, rejected before (OP_RETURN is an error there); the hypotheses of the enriched theorem hold on it *)
+Example C04_inscribe_body_boundary_lengths :
+  forallb (fun n => match parse_ops (length (SignAcceptAll.ord_body InscribeAccept.ex_ct (repeat_byte n x41))) false
+                            (SignAcceptAll.ord_body InscribeAccept.ex_ct (repeat_byte n x41)) 1 with
+                    | Some ops => is_push_only ops && Nat.eqb (length ops) 5
+                    | None => false end)
+          [0; 1; 75; 76; 255; 256]%nat = true.
+Proof. vm_compute. reflexivity. Qed.
+Example C04_enriched_direct_evaluation :
+  InscribeAccept.ex_lock_e <> [] /\
+  match fill_input (Some ex_signer) InscribeAccept.ex_tx_e 0 0 with
+  | SgOk t' =>
+      match tx_ins t' with
+      | i :: _ =>
+          fst (engine_execute (mk_sigops ex_orc (engine_tx t' 0 (in_unlock i) InscribeAccept.ex_lock_e 1) 0)
+                 (mkExecInput (in_unlock i) InscribeAccept.ex_lock_e FLAGS_FORKID_GENESIS true true 0 1 4294967295)) = VOk /\
+          fst (engine_execute (mk_sigops ex_orc (engine_tx t' 0 (in_unlock i) InscribeAccept.ex_lock_e 1) 0)
+                 (mkExecInput (in_unlock i) InscribeAccept.ex_lock_e (2 ^ 11) true true 0 1 4294967295)) = VErr
+      | [] => False
+      end
+  | _ => False
+  end.
+Proof. exact InscribeAccept.enriched_direct_evaluation. Qed.
+Example C04_inscription_enriched_hypotheses_satisfiable :
+  let c := mkCtx (normalise_flags FLAGS_FORKID_GENESIS) true 0 1 4294967295 false in
+  wf_tx InscribeAccept.ex_tx_e /\ nthN (tx_ins InscribeAccept.ex_tx_e) 0 = Some InscribeAccept.ex_inp_e /\
+  Inscription.inscribe_script (p2pkh_lock (hash160 (sg_pub ex_signer))) InscribeAccept.ex_ct [x68; x69]
+    (Some InscribeAccept.ex_op_return) = Some InscribeAccept.ex_lock_e /\
+  in_script InscribeAccept.ex_inp_e = Some InscribeAccept.ex_lock_e /\ signer_ok ex_signer /\
+  (exists h, fst (calc_input_signature_hash InscribeAccept.ex_tx_e 0 65) = SOk h /\ sg_sign ex_signer h = Some ex_sig /\
+             oracle_accepts_signer ex_orc c ex_signer h) /\
+  has_flag c F_FORKID = true /\ after_genesis c = true /\
+  (has_flag c F_CLEANSTACK = true -> has_flag c F_BIP16 = true) /\ (lenZ InscribeAccept.ex_lock_e <= max_script_size c)%Z.
+Proof. exact InscribeAccept.inscription_enriched_hypotheses_satisfiable. Qed.
+
+(** ** Call paths (round 7).  The same transaction, input and spent output can reach Engine.Execute in several ways:
+    locking / unlocking script inside the previous output / the input, through WithScripts only, or both; the caller's
+    object recording nothing, the right or a stale previous output.  model/EngineCall.v models the full call
+    (WithScripts + WithTx over a previous output whose script may be nil, thread.apply's write of script and value into
+    the caller's object); the verdict is the canonical call's on every path. *)
+From GoBT Require model.EngineCall proofs.EngineCallProofs.
+Theorem C04_call_verdict_path_independent : forall (orc : CheckSig.sig_oracle) t i inp lock sats flags lv uv rec,
+  SigHash.nthN (Tx.tx_ins t) i = Some inp -> uv <> EngineCall.ViaScripts ->
+  EngineCall.call_verdict (CheckSig.mk_sigops orc) (EngineCall.call_for t i lock (Tx.in_unlock inp) sats flags lv uv rec) =
+  fst (Interp.engine_execute (CheckSig.mk_sigops orc (CheckSig.engine_tx t i (Tx.in_unlock inp) lock sats) i)
+         (Interp.mkExecInput (Tx.in_unlock inp) lock flags true true (Z.of_N (Tx.tx_lock t)) (Z.of_N (Tx.tx_version t))
+                      (Z.of_N (Tx.in_seq inp)))).
+Proof. exact EngineCallProofs.call_verdict_path_independent. Qed.
+Print Assumptions C04_call_verdict_path_independent.
+Theorem C04_call_verdict_scripts_only : forall (orc : CheckSig.sig_oracle) t i inp lock sats flags lv rec,
+  SigHash.nthN (Tx.tx_ins t) i = Some inp ->
+  EngineCall.call_verdict (CheckSig.mk_sigops orc)
+    (EngineCall.call_for t i lock (Tx.in_unlock inp) sats flags lv EngineCall.ViaScripts rec) =
+  fst (Interp.engine_execute (CheckSig.mk_sigops orc (CheckSig.engine_tx t i nil lock sats) i)
+         (Interp.mkExecInput (Tx.in_unlock inp) lock flags true true (Z.of_N (Tx.tx_lock t)) (Z.of_N (Tx.tx_version t))
+                      (Z.of_N (Tx.in_seq inp)))).
+Proof. exact EngineCallProofs.call_verdict_path_independent_scripts_only. Qed.
+Print Assumptions C04_call_verdict_scripts_only.
+Theorem C04_signed_p2pkh_accepts_on_every_call_path : forall orc t idx inp flags sats ht sig pk body insc bops h lv uv rec,
+  P2PKHProofs.p2pkh_hyps orc t idx inp flags sats ht sig pk body insc bops h ->
+  SigHash.nthN (Tx.tx_ins t) idx = Some inp -> Tx.in_unlock inp = P2PKHProofs.p2pkh_unlock sig ht pk ->
+  uv <> EngineCall.ViaScripts ->
+  EngineCall.call_verdict (CheckSig.mk_sigops orc)
+    (EngineCall.call_for t idx
+       (P2PKHProofs.p2pkh_lock (Ripemd160.hash160 pk) ++ (if insc then P2PKHProofs.inscription_suffix body else nil))%list
+       (P2PKHProofs.p2pkh_unlock sig ht pk) sats flags lv uv rec) = Interp.VOk.
+Proof. exact EngineCallProofs.signed_p2pkh_accepts_on_every_call_path. Qed.
+Print Assumptions C04_signed_p2pkh_accepts_on_every_call_path.
+Theorem C04_recorded_previous_output_is_overwritten : forall t i uv rec p,
+  EngineCall.record_prevout (EngineCall.object_for t i uv rec) i p = EngineCall.object_for t i uv p.
+Proof. exact EngineCallProofs.record_overwrites. Qed.
+Print Assumptions C04_recorded_previous_output_is_overwritten.
